@@ -326,6 +326,7 @@ func newAgg(r *mon.Run) *agg {
 }
 
 func (a *agg) eval()                    { a.evals++ }
+func (a *agg) count(k string) int64     { return a.events[k] }
 func (a *agg) class(k string)           { a.classes[k] = struct{}{} }
 func (a *agg) event(k string)           { a.events[k]++ }
 func (a *agg) eventN(k string, n int64) { a.events[k] += n }
